@@ -195,8 +195,10 @@ class OperatorProgram:
                 mode = act.get('mode', 'append')     # append: non-idempotent; set: idempotent
                 field = act.get('field', 'markers')
 
-                def fn(body, marker=marker, mode=mode, field=field):
-                    spec = body.setdefault('spec', {})
+                zone = act.get('zone', 'spec')
+
+                def fn(body, marker=marker, mode=mode, field=field, zone=zone):
+                    spec = body.setdefault(zone, {})
                     if mode == 'append':
                         spec.setdefault(field, []).append(marker)
                     else:
